@@ -111,7 +111,7 @@ theorem callDecode_eq (G : GenLayer) (cfg : Config) (st : State) (i : Input) (pa
       | some .none => (st, .none)
       | some .raised => (st, .raised)
       | some (.ok m) =>
-        match claimStep cfg st i m (leNat payload) iso with
+        match claimStep cfg st i m (leNat payload % 18446744073709551616) iso with
         | none => (st, .raised)
         | some (st1, iso1, stop) =>
           if stop then (st1, .none)
@@ -132,7 +132,7 @@ theorem callDecode_eq (G : GenLayer) (cfg : Config) (st : State) (i : Input) (pa
 theorem callDecode_ok (G : GenLayer) (cfg : Config) (st : State) (i : Input) (payload : List Nat)
     (iso : Option IsoName) (m : Msg) (st1 : State) (iso1 : Option IsoName) (stop : Bool)
     (hd : G.decode i.pgn (leNat payload) = some (.ok m))
-    (hc : claimStep cfg st i m (leNat payload) iso = some (st1, iso1, stop)) :
+    (hc : claimStep cfg st i m (leNat payload % 18446744073709551616) iso = some (st1, iso1, stop)) :
     (callDecode G cfg st i payload iso).1.table = st1.table ∧
     (callDecode G cfg st i payload iso).1.sources = st1.sources ∧
     ∀ o, (callDecode G cfg st i payload iso).2 = .msg o → o.src = i.src ∧ o.iso = iso1 := by
@@ -163,7 +163,7 @@ theorem callDecode_spec (G : GenLayer) (cfg : Config) (st : State) (i : Input) (
     (iso : Option IsoName) :
     ((callDecode G cfg st i payload iso).1 = st ∧ ∀ o, (callDecode G cfg st i payload iso).2 ≠ .msg o) ∨
     ∃ m st1 iso1, G.decode i.pgn (leNat payload) = some (.ok m) ∧
-      ClaimSpec st i m (leNat payload) iso st1 iso1 ∧
+      ClaimSpec st i m (leNat payload % 18446744073709551616) iso st1 iso1 ∧
       (callDecode G cfg st i payload iso).1.table = st1.table ∧
       (callDecode G cfg st i payload iso).1.sources = st1.sources ∧
       ∀ o, (callDecode G cfg st i payload iso).2 = .msg o → o.src = i.src ∧ o.iso = iso1 := by
@@ -174,7 +174,7 @@ theorem callDecode_spec (G : GenLayer) (cfg : Config) (st : State) (i : Input) (
     | none => rw [callDecode_eq, hd]; exact Or.inl ⟨rfl, fun o h => by cases h⟩
     | raised => rw [callDecode_eq, hd]; exact Or.inl ⟨rfl, fun o h => by cases h⟩
     | ok m =>
-      cases hc : claimStep cfg st i m (leNat payload) iso with
+      cases hc : claimStep cfg st i m (leNat payload % 18446744073709551616) iso with
       | none => rw [callDecode_eq, hd]; simp only; rw [hc]; exact Or.inl ⟨rfl, fun o h => by cases h⟩
       | some r =>
         obtain ⟨st1, iso1, stop⟩ := r
@@ -278,7 +278,7 @@ theorem step_spec (G : GenLayer) (cfg : Config) (st : State) (i : Input) :
     ∃ iso st' payload m st1 iso1, preOf cfg st i = some iso ∧ st'.sources = st.sources ∧
       (i.combined = true ∨ G.isFast i.pgn = .single → payload = i.data) ∧
       G.decode i.pgn (leNat payload) = some (.ok m) ∧
-      ClaimSpec st' i m (leNat payload) iso st1 iso1 ∧
+      ClaimSpec st' i m (leNat payload % 18446744073709551616) iso st1 iso1 ∧
       (step G cfg st i).1.sources = st1.sources ∧
       ∀ o, (step G cfg st i).2 = .msg o → o.src = i.src ∧ o.iso = iso1 := by
   rcases step_cases G cfg st i with h | ⟨iso, st', payload, hp, hs, he, hpay⟩
@@ -359,13 +359,13 @@ theorem claimStep_isSome (cfg : Config) (st : State) (i : Input) (m : Msg) (d : 
 theorem step_claim_identity (G : GenLayer) (cfg : Config) (st : State) (i : Input) (m : Msg)
     (hp : i.pgn = isoClaimPgn) (hk : G.isFast isoClaimPgn = .single)
     (hd : G.decode i.pgn (leNat i.data) = some (.ok m)) (hm : m.pgn = isoClaimPgn) (n : IsoName)
-    (hn : mkIsoName m (leNat i.data) = some n) :
-    ∃ n', lookupSrc (step G cfg st i).1.sources i.src = some n' ∧ n'.name = leNat i.data ∧
+    (hn : mkIsoName m (leNat i.data % 18446744073709551616) = some n) :
+    ∃ n', lookupSrc (step G cfg st i).1.sources i.src = some n' ∧ n'.name = leNat i.data % 18446744073709551616 ∧
       (n' = n ∨ lookupSrc st.sources i.src = some n') := by
   have hstep : step G cfg st i = callDecode G cfg st i i.data none := by
     rw [step_eq, preOf_claim cfg st i hp, hp, hk]
     simp
-  obtain ⟨st1, iso1, stop, hc⟩ := claimStep_isSome cfg st i m (leNat i.data) none n hm hn
+  obtain ⟨st1, iso1, stop, hc⟩ := claimStep_isSome cfg st i m (leNat i.data % 18446744073709551616) none n hm hn
   obtain ⟨_, hsrc, _⟩ := callDecode_ok G cfg st i i.data none m st1 iso1 stop hd hc
   obtain ⟨n', _, e2, e3, e4⟩ := (claimStep_spec _ _ _ _ _ _ _ _ _ hc).claim hm
   refine ⟨n', by rw [hstep, hsrc, e2], e3, ?_⟩
